@@ -471,12 +471,16 @@ func (e *Engine) genEmpV(r *core.Rand, m *Model, hostile bool) map[string]any {
 	}
 	v["roles"] = core.Shuffle(r, roles)
 	// dept
-	if r.P(0.08) {
+	if r.P(0.05) {
+		v["dept"] = "" // the empty string is "no reference" too
+	} else if r.P(0.08) {
 		v["dept"] = nil
 	} else {
 		v["dept"] = e.pickRef(r, m, Depts, e.DeptPool) // may be missing
 	}
-	if r.P(0.45) {
+	if r.P(0.05) {
+		v["boss"] = ""
+	} else if r.P(0.45) {
 		v["boss"] = nil
 	} else {
 		v["boss"] = e.pickRef(r, m, Emps, e.EmpPool)
